@@ -10,17 +10,17 @@ func init() {
 	register(&Check{
 		ID: "C16", Level: "model_checking", Engine: "E1-ICB", DesignRef: "DESIGN.md §4 C16",
 		Technique: "stateless model checking of the real Store under a controlled scheduler (iterative preemption bounding) for the counters/size views; exhaustive state-matching search (E1-SK) of the striped counter with every atomic a scheduling point",
-		LevelText: "(a) every interleaving, at the granularity of single atomic operations and with the stripe re-selection enumerated, of 2-3 threads adding to the real striped counter (1 and 2 stripes): the final Value equals the number of adds and no schedule livelocks; (b) every schedule within the preemption bound of 3 clients mixing hits, misses, writes, deletes and loading gets on the real store: after all calls returned Hits+Misses == #Get calls and Hits == #value-returning Gets, and after Wait Len / Range / EstimatedSize agree with the resident map; right level because lost counter updates and torn size views need specific interleavings",
+		LevelText: "(a) every interleaving, at the granularity of single atomic operations and with the stripe re-selection enumerated, of 2-3 threads adding to the real striped counter (1 and 2 stripes): the final Value equals the number of adds and no schedule livelocks; (b) every schedule within the preemption bound of 3 clients mixing hits, misses, writes, deletes and loading gets on the real store: after all calls returned Hits+Misses == #Get calls and Hits == #value-returning Gets, and after Wait Len / Range / EstimatedSize agree with the resident map (default configuration, plus three drivers with the entry pool on: an entry object recycled for the same key after expiry, delete/re-set, eviction pressure); right level because lost counter updates and torn size views need specific interleavings",
 		LevelNote: "trusted: instrumenter + vrt models; (b) uses coarse atomics inside rbmutex/counter/buffer (their own checks use fine atomics); bounded: 3 clients x 2 calls, preemptions <=2 (thorough 3)",
 		Rule:      "component: DFS with state-key pruning (shared snapshot + per-thread learned-values chain), outcome = final stripe contents; store: stateless DFS with iterative preemption bound, outcome = (hits, misses, final map)",
 		Assume:    []string{"sequentially consistent atomics", "for the loading store only Hits+Misses==calls and Hits<=calls are checked (a caller that joins another caller's load is counted as a miss by the code and is neither clearly a hit nor a miss in the statement)"},
 		Quick: []Scenario{
 			cnt("s1-3x2", 60), cnt("s2-3x1", 60), cnt("s2-2x2", 60),
-			mk("V1-hit-miss", 8, "2", 60), mk("V2-pressure", 8, "2", 60), mk("V3-loading", 8, "2", 60), mk("V4-load-vs-set", 6, "2", 60), mk("V5c-same-key-reset-after-expiry", 8, "2", 60), mk("V5b-pool-same-key-reuse-expiry", 8, "2", 60),
+			mk("V1-hit-miss", 8, "2", 60), mk("V2-pressure", 8, "2", 60), mk("V3-loading", 8, "2", 60), mk("V4-load-vs-set", 6, "2", 60), mk("V5c-same-key-reset-after-expiry", 8, "2", 60), mk("V5b-pool-same-key-reuse-expiry", 8, "2", 60), mk("V6p-pool-delete-reset", 8, "2", 60),
 		},
 		Thorough: []Scenario{
 			cnt("s1-3x2", 600), cnt("s2-3x1", 600), cnt("s2-2x2", 600),
-			mk("V1-hit-miss", 16, "3", 900), mk("V2-pressure", 16, "3", 900), mk("V3-loading", 16, "3", 900), mk("V4-load-vs-set", 16, "3", 900), mk("V5c-same-key-reset-after-expiry", 16, "3", 900), mk("V5b-pool-same-key-reuse-expiry", 16, "3", 900),
+			mk("V1-hit-miss", 16, "3", 900), mk("V2-pressure", 16, "3", 900), mk("V3-loading", 16, "3", 900), mk("V4-load-vs-set", 16, "3", 900), mk("V5c-same-key-reset-after-expiry", 16, "3", 900), mk("V5b-pool-same-key-reuse-expiry", 16, "3", 900), mk("V6p-pool-delete-reset", 16, "3", 900), mk("V2p-pool-pressure", 16, "2", 900),
 		},
 	})
 }
